@@ -77,10 +77,223 @@ Fixpoint seq_run (s : sq) (ops : list word) : list word :=
   | op :: r => let (s', o) := seq_op s op in o :: seq_run s' r
   end.
 
+(* ================= Part C: Server.Stop / GracefulStop at quiescent points ================= *)
+(* Sequential model of what a real Server (one connection, handlers blocked on a gate) has
+   done once everything has settled after each operation of the driver (cfg [2; workers; wfh]).
+   RPC kinds: 0 plain, 1 the response is blocked by flow control until the client reads,
+   2 the handler ignores the cancellation of its context. *)
+Record rp := mkrp {
+  r_k : Z;
+  r_h : Z;            (* 0 never started (refused), 1 handler running, 2 handler returned *)
+  r_code : Z;         (* status the handler returned *)
+  r_rel : bool;       (* a release was sent to the gate *)
+  r_read : bool;      (* the client is reading *)
+  r_cdone : bool;     (* the client has its final status *)
+  r_ccode : Z;        (* that status *)
+  r_dead : bool;      (* the stream was killed (Stop, or cancelled by the client) before delivery *)
+  r_dcode : Z;        (* what the client will then see *)
+  r_canc : bool;      (* the handler's context was seen cancelled *)
+  r_ccan : bool;      (* the client cancelled *)
+  n10 : bool; n11 : bool; n12 : bool; n13 : bool   (* events of the current operation *)
+}.
+Record sv := mksv {
+  rpcs : list rp; gcalled : bool; closed : bool; hard : bool; gpend : Z; spend : Z; wfh : bool;
+  gret : Z; sret : Z
+}.
+
+Definition clr (r : rp) : rp :=
+  mkrp (r_k r) (r_h r) (r_code r) (r_rel r) (r_read r) (r_cdone r) (r_ccode r) (r_dead r) (r_dcode r)
+       (r_canc r) (r_ccan r) false false false false.
+
+Fixpoint upd_nth (n : nat) (f : rp -> rp) (l : list rp) : list rp :=
+  match l, n with
+  | [], _ => []
+  | x :: t, O => f x :: t
+  | x :: t, S m => x :: upd_nth m f t
+  end.
+
+Definition accepted (r : rp) : bool := 1 <=? r_h r.
+Definition returned (r : rp) : bool := r_h r =? 2.
+
+(* the handler sees its context cancelled: plain handlers return Canceled, kind 2 keeps running *)
+Definition cancel_handler (r : rp) : rp :=
+  if r_h r =? 1 then
+    if r_k r =? 2 then
+      mkrp (r_k r) 1 (r_code r) (r_rel r) (r_read r) (r_cdone r) (r_ccode r) (r_dead r) (r_dcode r)
+           true (r_ccan r) (n10 r) (n11 r) (negb (r_canc r) || n12 r) (n13 r)
+    else
+      mkrp (r_k r) 2 1 (r_rel r) (r_read r) (r_cdone r) (r_ccode r) (r_dead r) (r_dcode r)
+           true (r_ccan r) (n10 r) true true (n13 r)
+  else r.
+(* the stream is torn down before the client has its status *)
+Definition kill_stream (code : Z) (r : rp) : rp :=
+  if accepted r && negb (r_cdone r) && negb (r_dead r) then
+    mkrp (r_k r) (r_h r) (r_code r) (r_rel r) (r_read r) (r_cdone r) (r_ccode r) true code
+         (r_canc r) (r_ccan r) (n10 r) (n11 r) (n12 r) (n13 r)
+  else r.
+Definition deliver (r : rp) : rp :=
+  if accepted r && negb (r_cdone r) && r_read r then
+    if r_dead r then
+      mkrp (r_k r) (r_h r) (r_code r) (r_rel r) (r_read r) true (r_dcode r) (r_dead r) (r_dcode r)
+           (r_canc r) (r_ccan r) (n10 r) (n11 r) (n12 r) true
+    else if returned r then
+      mkrp (r_k r) (r_h r) (r_code r) (r_rel r) (r_read r) true (r_code r) (r_dead r) (r_dcode r)
+           (r_canc r) (r_ccan r) (n10 r) (n11 r) (n12 r) true
+    else r
+  else r.
+
+Definition settle (s : sv) : sv :=
+  let rs := map deliver (rpcs s) in
+  let idle := forallb (fun r => negb (accepted r) || r_cdone r || r_dead r) rs in
+  let cl := closed s || (gcalled s && idle) in
+  let allret := forallb (fun r => negb (accepted r) || returned r) rs in
+  let gr := if cl && allret then gpend s else 0 in
+  let sr := if cl && hard s && (negb (wfh s) || allret) then spend s else 0 in
+  mksv rs (gcalled s) cl (hard s) (gpend s - gr) (spend s - sr) (wfh s) gr sr.
+
+Definition new_rpc (k : Z) (refused : bool) : rp :=
+  if refused then mkrp k 0 0 false (negb (k =? 1)) true 14 false 0 false false false false false true
+  else mkrp k 1 0 false (negb (k =? 1)) false 0 false 0 false false true false false false.
+
+Definition nth_rp (s : sv) (id : Z) : option rp := nth_error (rpcs s) (Z.to_nat id).
+Definition valid_id (s : sv) (id : Z) : bool := (0 <=? id) && (id <? Z.of_nat (length (rpcs s))).
+Definition stubborn (s : sv) : bool := existsb (fun r => (r_k r =? 2) && (r_h r =? 1) && negb (r_rel r)) (rpcs s).
+Definition with_rpcs (s : sv) (rs : list rp) : sv :=
+  mksv rs (gcalled s) (closed s) (hard s) (gpend s) (spend s) (wfh s) 0 0.
+
+(* None = the driver ignores the operation *)
+Definition srv_prim (s : sv) (op : word) : option sv :=
+  match op with
+  | [c] =>
+    if ((c =? 3) || (c =? 4)) && (0 <? gpend s + spend s) && stubborn s then None
+    else if c =? 3 then Some (mksv (rpcs s) true (closed s) (hard s) (gpend s + 1) (spend s) (wfh s) 0 0)
+    else if c =? 4 then
+      Some (mksv (if closed s then rpcs s else map (fun r => kill_stream 14 (cancel_handler r)) (rpcs s))
+                 (gcalled s) true true (gpend s) (spend s + 1) (wfh s) 0 0)
+    else None
+  | [c; a] =>
+    if (c =? 1) && (0 <=? a) && (a <=? 2) && (Z.of_nat (length (rpcs s)) <? 64) then
+      Some (with_rpcs s (rpcs s ++ [new_rpc a (closed s || gcalled s)]))
+    else if (c =? 6) && valid_id s a then
+      match nth_rp s a with
+      | Some r => if r_read r then None else
+          Some (with_rpcs s (upd_nth (Z.to_nat a) (fun r =>
+            mkrp (r_k r) (r_h r) (r_code r) (r_rel r) true (r_cdone r) (r_ccode r) (r_dead r) (r_dcode r)
+                 (r_canc r) (r_ccan r) (n10 r) (n11 r) (n12 r) (n13 r)) (rpcs s)))
+      | None => None
+      end
+    else if (c =? 5) && valid_id s a then
+      match nth_rp s a with
+      | Some r => if r_ccan r then None else
+          Some (with_rpcs s (upd_nth (Z.to_nat a) (fun r =>
+            let r1 := if accepted r && negb (r_cdone r) && negb (r_dead r)
+                      then kill_stream 1 (cancel_handler r) else r in
+            mkrp (r_k r1) (r_h r1) (r_code r1) (r_rel r1) (r_read r1) (r_cdone r1) (r_ccode r1) (r_dead r1)
+                 (r_dcode r1) (r_canc r1) true (n10 r1) (n11 r1) (n12 r1) (n13 r1)) (rpcs s)))
+      | None => None
+      end
+    else None
+  | [c; a; code] =>
+    if (c =? 2) && valid_id s a && (0 <=? code) && (code <=? 16) then
+      match nth_rp s a with
+      | Some r => if r_rel r then None else
+          Some (with_rpcs s (upd_nth (Z.to_nat a) (fun r =>
+            if r_h r =? 1 then
+              mkrp (r_k r) 2 code true (r_read r) (r_cdone r) (r_ccode r) (r_dead r) (r_dcode r)
+                   (r_canc r) (r_ccan r) (n10 r) true (n12 r) (n13 r)
+            else
+              mkrp (r_k r) (r_h r) (r_code r) true (r_read r) (r_cdone r) (r_ccode r) (r_dead r) (r_dcode r)
+                   (r_canc r) (r_ccan r) (n10 r) (n11 r) (n12 r) (n13 r)) (rpcs s)))
+      | None => None
+      end
+    else None
+  | _ => None
+  end.
+
+(* events of one operation, sorted by (type, id) *)
+Fixpoint evs_of (t : Z) (flag : rp -> bool) (code : rp -> Z) (i : Z) (l : list rp) : list Z :=
+  match l with
+  | [] => []
+  | r :: rest => (if flag r then [t; i; code r] else []) ++ evs_of t flag code (i + 1) rest
+  end.
+Fixpoint rep_ev (n : nat) (t : Z) : list Z :=
+  match n with O => [] | S m => [t; 0; 0] ++ rep_ev m t end.
+Definition srv_events (s : sv) : list Z :=
+  evs_of 10 n10 (fun _ => 0) 0 (rpcs s) ++ evs_of 11 n11 r_code 0 (rpcs s) ++
+  evs_of 12 n12 (fun _ => 0) 0 (rpcs s) ++ evs_of 13 n13 r_ccode 0 (rpcs s) ++
+  rep_ev (Z.to_nat (gret s)) 14 ++ rep_ev (Z.to_nat (sret s)) 15.
+
+Definition srv_op (s : sv) (op : word) : sv * word :=
+  match srv_prim (with_rpcs s (map clr (rpcs s))) op with
+  | None => (with_rpcs s (map clr (rpcs s)), [0])
+  | Some s1 => let s2 := settle s1 in (s2, op ++ srv_events s2)
+  end.
+
+Fixpoint srv_run (s : sv) (ops : list word) : list word :=
+  match ops with
+  | [] => []
+  | op :: r => let (s', o) := srv_op s op in o :: srv_run s' r
+  end.
+
+(* ================= Part D: Stop / GracefulStop ordering, all interleavings ================= *)
+(* server.go stop(graceful) as atomic steps of a thread per call: quit.Fire + close listeners;
+   drainAllServerTransportsLocked (first GOAWAY) or closeServerTransportsLocked; wait until
+   conns is empty; handlersWG.Wait (graceful or WaitForHandlers).  One connection whose
+   transport goes serving -> first GOAWAY sent (still accepting) -> second GOAWAY (refusing
+   new streams) -> closed (no active stream left while draining, or closed by Stop).
+   RPCs: arrival (accepted: handlersWG.Add, handler started / refused), handler return with a
+   status, delivery of that status to the client (the stream stays active until then). *)
+Inductive conn := CServing | CGoAway1 | CDraining | CClosed.
+Inductive hst := HNone | HRunning | HRet (st : Z).
+Inductive cli := CNone | CHandler (st : Z) | CErr | CRefused.
+Record srpc := mkr { hs : hst; cxl : bool; clst : cli; act : bool; late : bool }.
+Inductive spc := P0 (g : bool) | P1 (g : bool) | P2 (g : bool) | P3 (g : bool) | P4 (g : bool).
+Record gst := mkg { cn : conn; hardc : bool; wfhd : bool; rs : list srpc; stops : list spc }.
+
+Definition arrive (c : conn) : srpc :=
+  match c with
+  | CServing | CGoAway1 => mkr HRunning false CNone true false
+  | CDraining => mkr HNone false CRefused false true
+  | CClosed => mkr HNone false CErr false true
+  end.
+(* Stop closes the transport: contexts cancelled, clients of unfinished streams get an error *)
+Definition kill (r : srpc) : srpc :=
+  if act r then mkr (hs r) true (match clst r with CNone => CErr | c => c end) false (late r) else r.
+Definition no_running (l : list srpc) : Prop := Forall (fun r => hs r <> HRunning) l.
+Definition all_inactive (l : list srpc) : Prop := Forall (fun r => act r = false) l.
+
+Inductive gstep : gst -> gst -> Prop :=
+| d_arrive : forall s, gstep s (mkg (cn s) (hardc s) (wfhd s) (rs s ++ [arrive (cn s)]) (stops s))
+| d_return : forall s l1 r l2 st, rs s = l1 ++ r :: l2 -> hs r = HRunning ->
+    gstep s (mkg (cn s) (hardc s) (wfhd s) (l1 ++ mkr (HRet st) (cxl r) (clst r) (act r) (late r) :: l2) (stops s))
+| d_deliver : forall s l1 r l2 st, rs s = l1 ++ r :: l2 -> hs r = HRet st -> act r = true -> cn s <> CClosed ->
+    gstep s (mkg (cn s) (hardc s) (wfhd s) (l1 ++ mkr (hs r) (cxl r) (CHandler st) false (late r) :: l2) (stops s))
+| d_call : forall s g, gstep s (mkg (cn s) (hardc s) (wfhd s) (rs s) (stops s ++ [P0 g]))
+| d_quit : forall s p1 g p2, stops s = p1 ++ P0 g :: p2 ->
+    gstep s (mkg (cn s) (hardc s) (wfhd s) (rs s) (p1 ++ P1 g :: p2))
+| d_drain : forall s p1 p2, stops s = p1 ++ P1 true :: p2 ->
+    gstep s (mkg (match cn s with CServing => CGoAway1 | c => c end) (hardc s) (wfhd s) (rs s) (p1 ++ P2 true :: p2))
+| d_close : forall s p1 p2, stops s = p1 ++ P1 false :: p2 ->
+    gstep s (if match cn s with CClosed => true | _ => false end
+             then mkg (cn s) (hardc s) (wfhd s) (rs s) (p1 ++ P2 false :: p2)
+             else mkg CClosed true (wfhd s) (map kill (rs s)) (p1 ++ P2 false :: p2))
+| d_goaway2 : forall s, cn s = CGoAway1 -> gstep s (mkg CDraining (hardc s) (wfhd s) (rs s) (stops s))
+| d_drainclose : forall s, cn s = CDraining -> all_inactive (rs s) ->
+    gstep s (mkg CClosed (hardc s) (wfhd s) (rs s) (stops s))
+| d_waitconns : forall s p1 g p2, stops s = p1 ++ P2 g :: p2 -> cn s = CClosed ->
+    gstep s (mkg (cn s) (hardc s) (wfhd s) (rs s) (p1 ++ P3 g :: p2))
+| d_waitwg : forall s p1 g p2, stops s = p1 ++ P3 g :: p2 -> (g || wfhd s = true -> no_running (rs s)) ->
+    gstep s (mkg (cn s) (hardc s) (wfhd s) (rs s) (p1 ++ P4 g :: p2)).
+
+Inductive greach : gst -> Prop :=
+| gr_init : forall w, greach (mkg CServing false w [] [])
+| gr_step : forall s s', greach s -> gstep s s' -> greach s'.
+
 (* cfg [0; N] sequential script;  cfg [1; N; streams] goroutine stress, obs [[N; max; streams completed]] *)
 Definition run (cfg : word) (ops : list word) : option (list word) :=
   match cfg with
   | [0; c] => if (0 <=? c) && (c <=? 4294967295) then Some (seq_run (mksq c c false 0) ops) else None
+  | [2; _; w] => Some (srv_run (mksv [] false false false 0 0 (w =? 1) 0 0) ops)
   | _ => None
   end.
 
@@ -95,9 +308,95 @@ Fixpoint held_clauses (c h : Z) (i : Z) (obs : list word) : list (Z * Z * bool) 
   | _ :: r => (0, i, true) :: held_clauses c h (i + 1) r
   end.
 
+(* ---- the property evaluated on a server trace (cfg [2; workers; wfh]) ---- *)
+Record evs := mkevs {
+  e_n : Z;                    (* RPCs started by the driver so far *)
+  e_started : list Z;         (* handlers started *)
+  e_ret : list (Z * Z);       (* handlers returned, with their status *)
+  e_canc : list Z;            (* handlers whose context was cancelled *)
+  e_cst : list Z;             (* clients that have their final status *)
+  e_ccan : list Z;            (* RPCs cancelled by their client *)
+  e_stopc : bool;             (* GracefulStop or Stop has been called *)
+  e_hard : bool               (* Stop has been called *)
+}.
+Definition evs0 : evs := mkevs 0 [] [] [] [] [] false false.
+Definition memz (x : Z) (l : list Z) : bool := existsb (Z.eqb x) l.
+Definition has_ret (x : Z) (l : list (Z * Z)) : bool := existsb (fun p => fst p =? x) l.
+Definition mem_ret (x c : Z) (l : list (Z * Z)) : bool := existsb (fun p => (fst p =? x) && (snd p =? c)) l.
+
+(* clause ids: 4 GracefulStop returned while a started handler had not returned;
+   5 a client of an accepted RPC got a status that is not its handler's (no Stop, no client
+     cancellation), or a handler's context was cancelled without Stop / client cancellation;
+   6 a handler started for an RPC begun after GracefulStop/Stop was called (or a refused RPC got OK);
+   7 Stop: a client got OK for an RPC unfinished at Stop, or Stop returned while a started
+     handler had neither returned nor seen its context cancelled;
+   8 GracefulStop returned before every accepted RPC's status had reached its client;
+   9 WaitForHandlers: Stop returned while a handler was still running *)
+Definition ev_event (w : bool) (start_ok : bool) (newid : Z) (e : evs) (t id c : Z) : evs * list (Z * bool) :=
+  if t =? 10 then
+    (mkevs (e_n e) (id :: e_started e) (e_ret e) (e_canc e) (e_cst e) (e_ccan e) (e_stopc e) (e_hard e),
+     [(6, start_ok && (id =? newid))])
+  else if t =? 11 then
+    (mkevs (e_n e) (e_started e) ((id, c) :: e_ret e) (e_canc e) (e_cst e) (e_ccan e) (e_stopc e) (e_hard e),
+     [(0, memz id (e_started e))])
+  else if t =? 12 then
+    (mkevs (e_n e) (e_started e) (e_ret e) (id :: e_canc e) (e_cst e) (e_ccan e) (e_stopc e) (e_hard e),
+     [(5, e_hard e || memz id (e_ccan e))])
+  else if t =? 13 then
+    (mkevs (e_n e) (e_started e) (e_ret e) (e_canc e) (id :: e_cst e) (e_ccan e) (e_stopc e) (e_hard e),
+     [if memz id (e_ccan e) then (0, true)
+      else if negb (memz id (e_started e)) then (6, negb (c =? 0))
+      else if e_hard e then (7, negb (c =? 0))
+      else (5, mem_ret id c (e_ret e))])
+  else if t =? 14 then
+    (e, [(4, forallb (fun x => has_ret x (e_ret e)) (e_started e));
+         (8, e_hard e || forallb (fun x => memz x (e_cst e) || memz x (e_ccan e)) (e_started e))])
+  else if t =? 15 then
+    (e, [(7, forallb (fun x => has_ret x (e_ret e) || memz x (e_canc e)) (e_started e));
+         (9, negb w || forallb (fun x => has_ret x (e_ret e)) (e_started e))])
+  else (e, [(0, false)]).
+
+Fixpoint ev_events (w start_ok : bool) (newid : Z) (e : evs) (l : list Z) (fuel : nat) : evs * list (Z * bool) :=
+  match fuel, l with
+  | S f, t :: id :: c :: rest =>
+    let (e1, r1) := ev_event w start_ok newid e t id c in
+    let (e2, r2) := ev_events w start_ok newid e1 rest f in (e2, r1 ++ r2)
+  | _, [] => (e, [])
+  | _, _ => (e, [(0, false)])
+  end.
+
+Definition ev_word (w : bool) (e : evs) (wd : word) : evs * list (Z * bool) :=
+  match wd with
+  | c :: rest =>
+    if c =? 1 then
+      let e1 := mkevs (e_n e + 1) (e_started e) (e_ret e) (e_canc e) (e_cst e) (e_ccan e) (e_stopc e) (e_hard e) in
+      ev_events w (negb (e_stopc e)) (e_n e) e1 (tl rest) (length rest)
+    else if c =? 2 then ev_events w false 0 e (tl (tl rest)) (length rest)
+    else if c =? 3 then
+      ev_events w false 0 (mkevs (e_n e) (e_started e) (e_ret e) (e_canc e) (e_cst e) (e_ccan e) true (e_hard e))
+                rest (length rest)
+    else if c =? 4 then
+      ev_events w false 0 (mkevs (e_n e) (e_started e) (e_ret e) (e_canc e) (e_cst e) (e_ccan e) true true)
+                rest (length rest)
+    else if c =? 5 then
+      ev_events w false 0 (mkevs (e_n e) (e_started e) (e_ret e) (e_canc e) (e_cst e) (hd 0 rest :: e_ccan e)
+                                 (e_stopc e) (e_hard e)) (tl rest) (length rest)
+    else if c =? 6 then ev_events w false 0 e (tl rest) (length rest)
+    else ev_events w false 0 e rest (length rest)
+  | [] => (e, [(0, false)])
+  end.
+
+Fixpoint srv_clauses (w : bool) (e : evs) (i : Z) (obs : list word) : list (Z * Z * bool) :=
+  match obs with
+  | [] => []
+  | wd :: r => let (e1, rs) := ev_word w e wd in
+               map (fun x => (fst x, i, snd x)) rs ++ srv_clauses w e1 (i + 1) r
+  end.
+
 Definition clauses (cfg : word) (ops obs : list word) : list (Z * Z * bool) :=
   match cfg with
   | [0; c] => held_clauses c 0 0 obs
+  | [2; _; w] => srv_clauses (w =? 1) evs0 0 obs
   | 1 :: c :: n :: _ => match obs with
                    | [[c'; mx; dn]] => [(2, 0, (c' =? c) && (mx <=? c)); (3, 0, dn =? n)]
                    | _ => [(0, 0, false)]
